@@ -477,6 +477,8 @@ class C08LevelLimit(Monitor):
                 self.v("more simultaneously active demes on a level than the level limit", level=li, active=c[li], limit=L, where=where)
             if c[li] == L:
                 self.cov("level_full_seen")
+                if any(d.is_active and d._hibernating for d in tree.levels[li]):
+                    self.cov("level_full_with_a_hibernating_deme")
                 self.was_full.add(li)
             elif li in self.was_full and c[li] < L:
                 self.cov("slot_freed_after_full")
